@@ -105,6 +105,12 @@ def r1_fresh_copy_per_run(ctx):
             ctx.fail(q + "#return", "returns nothing", where=f, node=f.node)
             continue
         for r in rets:
+            rv_ = expand(f, r.value)
+            if isinstance(rv_, ast.Call) and isinstance(rv_.func, ast.Attribute) and dotted(rv_.func.value) == src and any(getattr(c_, "qual", "") in COPY_PRODUCERS and getattr(c_, "qual", "") != q for c_ in ctx.R.resolve_call(f, rv_)):
+                # delegates to another copy producer on the incoming object (e.g. processor.replace(changes)): that one
+                # is held to the same obligations by this rule
+                ctx.ok(q + "#return", f"returns the private copy made by {norm(rv_.func)[:40]}", where=f, node=r)
+                continue
             if not isinstance(r.value, ast.Name):
                 ctx.fail(q + "#return", f"returns {norm(r.value)[:60]} instead of the local deep copy", where=f, node=r)
                 continue
